@@ -13,7 +13,9 @@ def check(ctx, rep):
         "every dispatch branch does both; recursive calls forward remove. R19.4 a sequence contributes its last "
         "job, required= goes to the first, the add is guarded by `is not self`, None is skipped before dispatch. "
         "R19.5 scheduler=, add(), update(), Sequence registration all reach the member-set update with the "
-        "flattened list.")
+        "flattened list. R19.8 who may write the relation: every construct that can change a `required` set "
+        "(mutator call, augmented or plain assignment, del, setattr, through a local alias too) sits in "
+        "requires(), the job constructor, sanitize() or bypass_and_remove(), or in a private helper only they call.")
     rep.trusted = ["T8 set/list semantics"]
     buildrules.construction(ctx, rep, "R19.1", "R19.2", "R19.3", "R19.4", "R19.5")
     from . import common
@@ -23,3 +25,4 @@ def check(ctx, rep):
         (list(r.sequence.methods.values()) if r.sequence else [])
     common.job_truthiness(ctx, rep, "R19.6", funcs)
     common.no_state_across_calls(ctx, rep, "R19.7", funcs)
+    buildrules.relation_writers(ctx, rep, "R19.8")
